@@ -132,6 +132,8 @@ def attr_desc(eng, st, v, init):
 
 def run_c08(ctx, chk):
     chk.assume('A-ARG', 'A-LIB', 'A-PUB', 'A-TOOL')
+    from .rules_c03 import param_fidelity
+    param_fidelity(ctx, chk)      # through the parser the numbers arrive as typed (R-CAP)
     prog = ctx.prog
     eng0 = ctx.new_engine()
     # D1 tables
@@ -354,6 +356,8 @@ def tabs_op_run(ctx, meth, stops, x, sel_):
 
 def run_c18(ctx, chk):
     chk.assume('A-DIM', 'A-PUB', 'A-TOOL')
+    from .rules_c03 import param_fidelity
+    param_fidelity(ctx, chk)      # through the parser the numbers arrive as typed (R-CAP)
     sr = ctx.screen_run()
     eng = sr['engine']
     prog = ctx.prog
@@ -842,9 +846,23 @@ def run_c16(ctx, chk):
         row_pr = any(len(ev[1]) == 2 and isinstance(ev[2], tuple) and ev[2][0] == 'lt' and eng.prove_le(st, ev[2][1], ln) is True for ev in rets)
         col_pr = any(len(ev[1]) == 3 and isinstance(ev[2], tuple) and ev[2][0] == 'lt' and eng.prove_le(st, ev[2][1], cn) is True for ev in rets)
         if not col_pr:
-            # pruning of rows happens in a loop over all rows: the retain on a row is seen on a loop segment
-            col_pr = any(s['ep'] == f and any(ev[0] == 'coll.retain' and len(ev[1]) == 3 and isinstance(ev[2], tuple) and ev[2][0] == 'lt'
-                                               for ev in s['st'].event_list()) for s in sr['segments'])
+            # pruning of rows happens in a loop over all rows: the retain on a row is seen on a loop
+            # segment - and on EVERY path through the body of that loop (a row skipped because it
+            # "already fits" by some other measure keeps its cells beyond the new width)
+            def has_ret(s_):
+                pre_, lev_ = g.seg_events(dict(s_, kind='backedge'))
+                return any(ev[0] == 'coll.retain' and len(ev[1]) == 3 and isinstance(ev[2], tuple) and ev[2][0] == 'lt' for ev in lev_)
+            segs_f = [s_ for s_ in sr['segments'] if s_['ep'] == f]
+            loops_r = {(s_['func'], s_['head']) for s_ in segs_f if has_ret(s_)}
+            col_pr = bool(loops_r) and all(has_ret(s_) for s_ in segs_f if (s_['func'], s_['head']) in loops_r)
+            # .. and the loop walks all rows, not a filtered / truncated selection of them
+            for s_ in segs_f:
+                if (s_['func'], s_['head']) in loops_r and isinstance(s_['head'], int):
+                    d_ = g.loop_desc_in(s_['st'].event_list(), s_['func'], s_['head'])
+                    if d_ is None or d_[0] != 'coll' or not g.elementwise(d_[4]):
+                        col_pr = False
+            if loops_r and not col_pr:
+                bad_p.append('[%s] some rows are skipped by the loop that prunes cells beyond the new width' % r.label)
         if shrink_l and not row_pr:
             bad_p.append('[%s] rows >= the new height are not pruned' % r.label)
         if shrink_c and not col_pr:
@@ -908,6 +926,8 @@ REF_MODES = {'LNM': 20, 'IRM': 4, 'DECTCEM': 25 << 5, 'DECSCNM': 5 << 5, 'DECOM'
 
 def run_c12(ctx, chk):
     chk.assume('A-DIM', 'A-ARG', 'A-PUB', 'A-TOOL')
+    from .rules_c03 import param_fidelity
+    param_fidelity(ctx, chk)      # through the parser the numbers arrive as typed (R-CAP)
     prog = ctx.prog
     for name, ref in sorted(REF_MODES.items()):
         c = prog.consts.get('modes::' + name)
